@@ -15,6 +15,8 @@ func init() {
 			ruleS2S3(c)
 			ruleS4(c)
 			ruleB4(c)
+			ruleB2(c)
+			ruleB5(c)
 		},
 		explanation: "Decides the typestate of the synchronization lock: requestPluginSync/finishedPluginSync are exactly the exclusive Lock/Unlock and BlockPluginSync/Unblock exactly the shared RLock/RUnlock of the same Adaptation.syncLock, Unblock releasing at most once per block; in the accept loop the runtime's state snapshot (the call of the sync callback with the plugin's synchronize) and the activation (append to the plugin list) both happen with the exclusive lock held, the lock is released exactly once on every path from the acquisition to the next iteration or exit; the activation depends on the snapshot having succeeded, happens under the adaptation lock and is followed by the sort; no other code path adds a plugin to the active list except start-up.",
 		notDecided: []string{
@@ -86,6 +88,30 @@ func ruleS1(c *Ctx) {
 			}
 		}
 	}
+	// the block handed out is a fresh object that nobody else can get hold of
+	bp := m.method(pkgAdapt, "Adaptation", "BlockPluginSync")
+	fresh := true
+	for _, r := range returnsOf(bp) {
+		for _, v := range returnValues(r, 0) {
+			if _, ok := v.(*ssa.Alloc); !ok {
+				fresh = false
+			}
+		}
+	}
+	escapes := ""
+	for _, ci := range calls(ub) {
+		for _, a := range ci.Common().Args {
+			v := a
+			if mi, ok := v.(*ssa.MakeInterface); ok {
+				v = mi.X
+			}
+			if v == ssa.Value(ub.Params[0]) && la.lockOpOf(ci.Common()) == nil {
+				escapes = m.calleeName(ci.Common())
+			}
+		}
+	}
+	c.ok("S1", "block/fresh", bp.Pos(), fresh && escapes == "", "every sync block is a fresh object owned by its caller alone (not recycled, not published by Unblock)",
+		"the block returned is not freshly allocated, or Unblock hands it to "+escapes+": a second Unblock by the first owner (documented as safe) then releases a lock that now belongs to another request")
 	c.ok("S1", "Unblock/once", ub.Pos(), okG && okC, "Unblock releases at most once per block (guarded by, and clearing, the block's adaptation reference)",
 		"the release is not guarded by the block's reference or the reference is not cleared after releasing: a second Unblock releases a read lock it does not hold")
 }
